@@ -37,7 +37,7 @@ BOUNDS = {
     "quick": {"x64-elf": 2, "others": 1, "blocks": "2-3"},
     "thorough": {"x64-elf": 3, "others": 2, "blocks": "2-3"},
 }
-CAP_S = {"quick": 150, "thorough": 2400}
+CAP_S = {"quick": 400, "thorough": 2400}
 
 P_ORD = [["p", 0]]
 P_ORD2 = [["p", 0], ["p", 0]]
